@@ -549,6 +549,32 @@ class _VarAccess(ast.NodeTransformer):
         return node
 
 
+def _hoist_temporaries(tree: ast.Module, cls: ast.ClassDef, cname: str) -> None:
+    """`C(args).m(...)` as the first thing a statement evaluates  ->  `__objN = C(args)` in front of it and `__objN.m(...)`."""
+    n_ = [0]
+    for fn in ast.walk(tree):
+        if not isinstance(fn, (ast.FunctionDef, ast.AsyncFunctionDef)) or any(fn is x for x in ast.walk(cls)):
+            continue
+        new_body = []
+        for st in fn.body:
+            v = st.value if isinstance(st, (ast.Expr, ast.Assign, ast.AnnAssign, ast.Return)) else None
+            if isinstance(v, ast.Await):
+                v = v.value
+            if isinstance(v, ast.Call) and isinstance(v.func, ast.Attribute) and isinstance(v.func.value, ast.Call) and isinstance(v.func.value.func, ast.Name) and v.func.value.func.id == cname:
+                taken = {n.id for n in ast.walk(fn) if isinstance(n, ast.Name)}
+                while True:
+                    n_[0] += 1
+                    nm = f"__obj{n_[0]}"
+                    if nm not in taken:
+                        break
+                inst = v.func.value
+                asg = ast.copy_location(ast.Assign(targets=[ast.copy_location(ast.Name(id=nm, ctx=ast.Store()), inst)], value=inst), st)
+                v.func.value = ast.copy_location(ast.Name(id=nm, ctx=ast.Load()), inst)
+                new_body.append(asg)
+            new_body.append(st)
+        fn.body = new_body
+
+
 def flatten_local_instances(tree: ast.Module) -> int:
     """`var = C(args)` as a statement of a function, C a private class of the module instantiated only there, `var`
     only ever used as `var.<member>` (also from nested functions): the fields become locals of the function and the
@@ -564,23 +590,27 @@ def flatten_local_instances(tree: ast.Module) -> int:
             mem = _Members(cls)
             if not mem.ok:
                 continue
+            _hoist_temporaries(tree, cls, cname)
             calls = [n for n in ast.walk(tree) if isinstance(n, ast.Call) and isinstance(n.func, ast.Name) and n.func.id == cname]
             refs = [n for n in ast.walk(tree) if isinstance(n, ast.Name) and n.id == cname and isinstance(n.ctx, ast.Load)]
-            if len(calls) != 1:
+            if not calls:
                 continue
-            call = calls[0]
-            if [n for n in refs if n is not call.func and not _in_annotation(tree, n)]:
+            if [n for n in refs if not any(n is c_.func for c_ in calls) and not _in_annotation(tree, n)]:
                 continue
-            site = None
+            # every instantiation is `var = C(args)` as a statement of a function; one of them is flattened per round
+            sites = []
             for fn in ast.walk(tree):
                 if isinstance(fn, (ast.FunctionDef, ast.AsyncFunctionDef)) and not any(fn is x for x in ast.walk(cls)):
                     for i, st in enumerate(fn.body):
-                        if isinstance(st, (ast.Assign, ast.AnnAssign)) and st.value is call:
+                        if isinstance(st, (ast.Assign, ast.AnnAssign)) and any(st.value is c_ for c_ in calls):
                             tg = st.targets[0] if isinstance(st, ast.Assign) and len(st.targets) == 1 else st.target if isinstance(st, ast.AnnAssign) else None
                             if isinstance(tg, ast.Name):
-                                site = (fn, i, st, tg.id)
-            if site is None:
+                                sites.append((fn, i, st, tg.id))
+            if len(sites) != len(calls):
                 continue
+            site = sites[0]
+            call = site[2].value
+            last_site = len(sites) == 1
             fn, idx, stmt, var = site
             # every other occurrence of `var` in the function is var.<member>; var is bound once
             members = mem.fields | set(mem.alias) | set(mem.methods) - {"__init__"}
@@ -648,7 +678,8 @@ def flatten_local_instances(tree: ast.Module) -> int:
             new_stmts = nested + pre + body
             fn.body[idx : idx + 1] = new_stmts or [ast.copy_location(ast.Pass(), stmt)]
             _VarAccess(var, mem).visit(fn)
-            tree.body.remove(cls)
+            if last_site:
+                tree.body.remove(cls)
             fmap = getattr(tree, "_flatten_local", None) or {}
             fmap[cname] = var
             tree._flatten_local = fmap  # type: ignore[attr-defined]
